@@ -56,6 +56,16 @@ func emitSpec(p *prog, s spec) {
 		if s.k == 'Y' {
 			p.emit(opcode.CONVERT, vmref.TByteString)
 		}
+	case 'W':
+		p.pushSmall(s.n)
+		p.emit(opcode.NEWBUFFER)
+		if s.n > 0 {
+			p.emit(opcode.DUP)
+			p.pushSmall(s.n - 1)
+			p.pushSmall(1)
+			p.emit(opcode.SETITEM)
+		}
+		p.emit(opcode.CONVERT, vmref.TByteString)
 	case 'A', 'T':
 		for i := len(s.kids) - 1; i >= 0; i-- {
 			emitSpec(p, s.kids[i])
@@ -967,8 +977,13 @@ func buildEntries() []entry {
 	}, opcode.MODPOW)
 	add(2, simple("q"), opcode.NOT)
 	add(2, simple("qq"), opcode.BOOLAND, opcode.BOOLOR)
-	add(5, func(g *single, op opcode.Opcode) {
+	add(9, func(g *single, op opcode.Opcode) {
 		t := g.t
+		if pick(t, 5, "eq_budget") < 2 {
+			buildStructBudget(g)
+			g.p.emit(op)
+			return
+		}
 		switch pick(t, 7, "eq_kind") {
 		case 0: // the same item twice
 			g.role('X', "a")
@@ -1210,6 +1225,112 @@ func buildEntries() []entry {
 		buildTrySingle(g, op)
 	}, opcode.TRY, opcode.ENDTRY, opcode.ENDFINALLY)
 	return es
+}
+
+// cloneOnStack turns [s] into [s s'] where s' is the copy that APPEND (or VALUES) makes of struct s: a different Struct
+// object whose non-struct fields are the SAME objects as in s.
+func cloneOnStack(g *single) {
+	p := g.p
+	p.emit(opcode.DUP)
+	if rapid.Bool().Draw(g.t, "clone_by_values") {
+		p.pushSmall(1)
+		p.emit(opcode.PACK)
+		p.emit(opcode.VALUES)
+	} else {
+		p.emit(opcode.NEWARRAY0)
+		p.emit(opcode.TUCK)
+		p.emit(opcode.SWAP)
+		p.emit(opcode.APPEND)
+	}
+	p.pushSmall(0)
+	p.emit(opcode.PICKITEM)
+}
+
+// buildStructBudget leaves two DIFFERENT struct objects on the stack whose comparison runs just below / at / above the
+// budgets of Struct.Equals: MaxComparableSize bytes (1 per non-ByteString pair, max(len) per ByteString pair, shared
+// objects charged too) and MaxStackSize compared pairs.
+func buildStructBudget(g *single) {
+	t := g.t
+	p := g.p
+	if pick(t, 4, "sb_count") == 0 {
+		// item budget: s1 = k references to t, s2 = k references to t' (t, t' distinct structs of m fields): 1 + k + k*m pairs
+		km := sample(t, [][2]int{{5, 408}, {22, 92}, {31, 65}, {33, 61}, {23, 88}, {89, 22}, {32, 63}, {64, 31}, {16, 127}, {3, 682},
+			{25, 81}, {41, 49}, {50, 40}, {10, 100}, {40, 60}, {30, 67}, {30, 68}}, "sb_km")
+		k, m := km[0], km[1]
+		diff := pick(t, 4, "sb_cdiff") // 0: differ in the first field, 1: in the last, else equal
+		for side := 0; side < 2; side++ {
+			p.pushSmall(m)
+			p.emit(opcode.NEWSTRUCT)
+			if side == 1 && diff < 2 {
+				p.emit(opcode.DUP)
+				if diff == 0 {
+					p.pushSmall(0)
+				} else {
+					p.pushSmall(m - 1)
+				}
+				p.pushSmall(1)
+				p.emit(opcode.SETITEM)
+			}
+			for i := 1; i < k; i++ {
+				p.emit(opcode.DUP)
+			}
+			p.pushSmall(k)
+			p.emit(opcode.PACKSTRUCT)
+		}
+		if rapid.Bool().Draw(t, "sb_swap") {
+			p.emit(opcode.SWAP)
+		}
+		return
+	}
+	// byte budget
+	total := sample(t, []int{65533, 65534, 65535, 65536, 65537, 65538, 131070}, "sb_total")
+	var sizes []int
+	switch pick(t, 4, "sb_nf") {
+	case 0:
+		sizes = []int{total}
+	case 1:
+		sizes = []int{40000, total - 40000}
+	case 2:
+		sizes = []int{total - 40000, 40000}
+	default:
+		sizes = []int{30000, 20000, total - 50000}
+	}
+	if total > 70000 && len(sizes) == 1 {
+		sizes = []int{65535, total - 65535}
+	}
+	shape := pick(t, 4, "sb_shape") // 0,1: flat; 2: last field nested one level; 3: every field nested
+	extra := pick(t, 4, "sb_extra") // 0: an Integer field in front, 1: at the end, else none
+	mode := pick(t, 4, "sb_mode")   // 0,1: same field objects (clone); 2: equal-content copies; 3: one field differs
+	diffField := pick(t, len(sizes), "sb_difff")
+	recipe := func(second bool) spec {
+		st := spec{k: 'T'}
+		if extra == 0 {
+			st.kids = append(st.kids, sSmall(7))
+		}
+		for i, n := range sizes {
+			f := spec{k: 'Y', n: n}
+			if second && mode == 3 && i == diffField {
+				f.k = 'W'
+			}
+			if shape == 3 || (shape == 2 && i == len(sizes)-1) {
+				f = spec{k: 'T', kids: []spec{f}}
+			}
+			st.kids = append(st.kids, f)
+		}
+		if extra == 1 {
+			st.kids = append(st.kids, sSmall(7))
+		}
+		return st
+	}
+	emitSpec(p, recipe(false))
+	if mode <= 1 {
+		cloneOnStack(g)
+	} else {
+		emitSpec(p, recipe(true))
+	}
+	if rapid.Bool().Draw(t, "sb_swap") {
+		p.emit(opcode.SWAP)
+	}
 }
 
 // buildTrySingle emits one TRY/CATCH/FINALLY skeleton whose body is a single action; op tells which instruction the case is
